@@ -84,6 +84,8 @@ def ev(S, F, x, asg, tabs=None):
         raise Unknown(sym.fmt(n(x)))
     if k == "bytes":
         return ("bytes", x[1])
+    if k == "repeat" and asg.get("symbolic"):
+        return ("repeat", ev(S, F, x[1], asg, tabs), ev(S, F, x[2], asg, tabs) if isinstance(x[2], tuple) else x[2])
     if k in ("lv", "mutated", "local") and asg.get("symbolic"):
         return ("raw", x)  # the content of a local the evaluation does not track (e.g. a buffer filled by a callee): opaque, never a number
     if k == "table":
@@ -392,6 +394,8 @@ def ev(S, F, x, asg, tabs=None):
         return ("fn", x[1])
     if k == "field" and isinstance(x[2], int):
         v = ev(S, F, x[1], asg, tabs)
+        if isinstance(v, tuple) and v[:1] == ("raw",):
+            return ("raw", x)  # a part of an untracked local
         if isinstance(v, tuple) and v and v[0] in ("obj", "fld"):
             fv = ("fld", v, x[2])
             known = asg.get("fields") or {}
